@@ -129,11 +129,13 @@ func VerifHarness_C19_IsEquivalence() {
 	mk := func(label string) *dtpb.Reference {
 		typ := verifTypes[verifrt.Choose(label+".type", 2)]
 		id := []string{"1", "2"}[verifrt.Choose(label+".id", 2)]
-		switch verifrt.Choose(label+".form", 3) {
+		switch verifrt.Choose(label+".form", 4) {
 		case 0:
 			return &dtpb.Reference{Reference: &dtpb.Reference_Uri{Uri: &dtpb.String{Value: typ + "/" + id}}}
 		case 1:
 			return &dtpb.Reference{Reference: &dtpb.Reference_Uri{Uri: &dtpb.String{Value: "http://h/" + typ + "/" + id}}}
+		case 3: // the same resource seen through another service base
+			return &dtpb.Reference{Reference: &dtpb.Reference_Uri{Uri: &dtpb.String{Value: "https://b:8443/r4/store/" + typ + "/" + id}}}
 		default:
 			return &dtpb.Reference{Type: &dtpb.Uri{Value: typ}, Reference: &dtpb.Reference_Fragment{Fragment: &dtpb.String{Value: id}}}
 		}
